@@ -306,7 +306,7 @@ def rand_history(rng, hid, transport, nsteps, ntids=8, maxrto=60000, us=False, c
         elif r < 0.97:
             steps.append({"a": "set_local", "key": rng.choice(keys)})
         else:
-            st = {"a": "send", "cls": rng.choice(["indication", "success", "error"]), "to": rng.choice(addrs), "pay": rng.choice(["p1", "p2"])}
+            st = {"a": "send", "cls": rng.choice(["indication", "success", "error", "data"]), "to": rng.choice(addrs), "pay": rng.choice(["p1", "p2"])}
             if rng.random() < 0.6:
                 st["tid"] = t        # e.g. the answer to a request that came in with this id - possibly from several addresses
             steps.append(st)
